@@ -116,3 +116,22 @@ Theorem C05_file_checker_accepts_every_engine_file : forall (P0 : N) (txs : list
   CheckM.check_m (Codec.reader_of (EngineFileImage.file_image pad P st' other)) P = Codec.Ok tt.
 Proof. exact EngineFileImage.history_inv_check. Qed.
 Print Assumptions C05_file_checker_accepts_every_engine_file.
+
+(* the same for the file UPDATED IN PLACE by a commit (the previous file with the written runs, the new free-list run and the new
+   header spliced in -- what the library actually does), step by step: the updated file holds the new state and passes both
+   checkers, and the conclusion re-establishes the premises for the next commit *)
+From Jamm Require EngineCow EngineReopen EngineFallback EngineCarried.
+Theorem C05_file_updated_in_place_stays_checked : forall (st : Engine.db) (ops : list Engine.op) (ord : list Bytes.bytes)
+    (st' : Engine.db) (pad : N -> Byte.byte) (P : N) (F : list Byte.byte),
+  EngineReopen.db_inv st -> Forall (EnginePathFacts.op_ok (Engine.d_disk st)) ops ->
+  Engine.run_tx st ops ord = Engine.Ok st' -> EngineRefines.readable st' ->
+  EngineFileImage.phys_ok P st -> EngineFileImage.phys_ok P st' -> EngineFileImage.tree_fits P st' ->
+  List.length F = N.to_nat (Engine.d_np st * P) -> EngineFallback.holds pad P F st ->
+  exists w : list (N * (N * Engine.ndata)),
+    EngineCow.tx_cow st st' w /\ EngineFallback.carried st st' w /\ EngineReopen.db_inv st' /\
+    (EngineFallback.writes_fit P st w ->
+     let C := EngineFallback.commit_image pad P F st st' w in
+     EngineFallback.holds pad P C st' /\ List.length C = N.to_nat (Engine.d_np st' * P) /\
+     Tree.inv_check (Codec.reader_of C) P = Codec.Ok tt /\ CheckM.check_m (Codec.reader_of C) P = Codec.Ok tt).
+Proof. exact EngineCarried.run_tx_commit_checked. Qed.
+Print Assumptions C05_file_updated_in_place_stays_checked.
